@@ -30,7 +30,11 @@
       connections, WPIMULT in both forms, several all-default WPIMULT records hitting the same
       well): when the keywords of block n themselves left the step closed (`Closed s1`: no pending
       all-default WPIMULT record, no unshut well with all connections shut), the per-step
-      exception is void and apply = inline holds with the same conclusion as `apply_eq_inline`.
+      exception is void and apply = inline holds with the same conclusion as `apply_eq_inline`;
+    * `apply_eq_inline_closed_step_events`: … and also in the WELL_STATUS_CHANGE events
+      (`SimE` = `Sim` + the same status-change events): at state n and at every later state — e.g. a
+      well the body plugs gets its status-change event at step n on both sides and none at n+1;
+      `full_observation`: `SimE` states with equal markers print the same full record.
 
   `Sim a b` = equal property channel, equal connection channel, equal status of every well.  (The
   status channel is an association list; the two sides may list its keys in a different order,
@@ -42,6 +46,7 @@
 -/
 import OpmVerif.Proofs.SchedCommute
 import OpmVerif.Proofs.SchedClosed
+import OpmVerif.Proofs.SchedEvents
 import OpmVerif.Proofs.SchedObs
 
 namespace OpmVerif.Props.C04
@@ -98,6 +103,27 @@ theorem apply_eq_inline_closed_step (k : Consts) (a : List (List CKw)) (blk : Li
       Sim sn' x ∧ All2 Sim tail tail2 ∧ x.mark = [] ∧ (∀ s ∈ tail, s.mark = []) ∧ (∀ s ∈ tail2, s.mark = []) :=
   applyAction_eq_inline_gen k a blk c sa s1 tail0 body W bs' ss' ha h1 hp
     (bodyTransfer_closed k _ s1 _ (Sim.refl _) hcl) happ
+
+/-- … and the WELL_STATUS_CHANGE events agree as well (`SimE`): the events of state n (those of
+block n, of the body's handlers and of the automatic shut-in after the body) and of every later
+state are the same on the apply side and in the schedule of the inlined deck. -/
+theorem apply_eq_inline_closed_step_events (k : Consts) (a : List (List CKw)) (blk : List CKw) (c : List (List CKw))
+    (sa : List State) (s1 : State) (tail0 : List State) (body : List CKw) (W : List String)
+    (bs' : List (List CKw)) (ss' : List State)
+    (ha : runFrom k (init k) a = .ok sa)
+    (h1 : runKws k none (beginBlock (sa.getLastD (init k)) blk) blk = .ok s1)
+    (hp : body.all plainKw = true) (hcl : Closed s1)
+    (happ : applyAction k (a ++ blk :: c) (sa ++ closeBlock s1 :: tail0) a.length body W = .ok (bs', ss')) :
+    ∃ sn' tail x tail2, ss' = sa ++ sn' :: tail ∧
+      run k (inlineAt (a ++ blk :: c) a.length (substBody (sortW (names s1.p.wells) W) body)) = .ok (sa ++ x :: tail2) ∧
+      SimE sn' x ∧ All2 SimE tail tail2 :=
+  applyAction_simE_inline_closed k a blk c sa s1 tail0 body W bs' ss' ha h1 hp hcl happ
+
+/-- `SimE` states with equal markers print the same full observation record (`showFull`: the
+record of `sim_observation` plus the wells with a status-change event) — what the correspondence
+compares. -/
+theorem full_observation (a b : State) (h : SimE a b) (hm : a.mark = b.mark) : showFull a = showFull b :=
+  showFull_congr a b h hm
 
 /-- The end-of-step closing is part of what `applyAction` does, unconditionally: after an
 application at step n every snapshot from n on is `Closed` — no deferred WPIMULT factor pending,
@@ -224,6 +250,10 @@ example : ((inlineSeq k0 blocks1 [(1, "STIM", [])]).toOption.bind fun b => (run 
 example : ((inlineSeq k0 blocks1 [(1, "PLUG", [])]).toOption.bind fun b => (run k0 b).toOption.map fun ss => ss.map obs1) =
     ((applySeq k0 blocks1 [(1, "PLUG", [])]).toOption.map fun r => r.2.map obs1) ∧
     ((applySeq k0 blocks1 [(1, "PLUG", [])]).toOption.map fun r => r.2.map fun s => statusOf s.st "P1") = some [.open_, .shut, .shut] := by
+  decide +kernel
+-- the status-change events: opening at step 0, the automatic shut-in of the plugged well at step 1, none at step 2
+example : ((applySeq k0 blocks1 [(1, "PLUG", [])]).toOption.map fun r => r.2.map (·.ev)) = some [["P1", "P2"], ["P1"], []] ∧
+    ((inlineSeq k0 blocks1 [(1, "PLUG", [])]).toOption.bind fun b => (run k0 b).toOption.map fun ss => ss.map (·.ev)) = some [["P1", "P2"], ["P1"], []] := by
   decide +kernel
 -- `Closed` is not vacuous: a state with a pending factor, or an open well with all connections shut, is not closed
 example : closedB { p := { wells := [] }, c := { g := [("P1", "f")] } } = false := by decide
